@@ -1,6 +1,7 @@
 package sim
 
 import (
+	"context"
 	"crypto/sha256"
 	"encoding/binary"
 	"fmt"
@@ -32,6 +33,8 @@ type Profile struct {
 	TailProp          string // property under which tail violations are reported (default C05)
 	CommitFailures    bool   // one node's commit callback fails at PRNG-determined heights
 	SyncPct           int    // node-sync steps per hundred (0: default 0..2)
+	CommErrors        bool   // the transport sometimes reports an error for a send that went out
+	CommitteeErrors   bool   // a committee request fails once in a while (the library retries after 200 ms of real time: used sparingly)
 	SplitHandoff      bool   // model the main-loop -> worker hand-off of syncs and election triggers as two separate steps
 	LenientValidators bool   // in a third of the cases the consumers' validators do not object to a missing block
 	NoRejects         bool   // correct validators never reject good blocks
@@ -220,6 +223,24 @@ func RunCase(seed int64, p *Profile, idx int) *Result {
 					w.Nodes[id].BU.RejectBody[fmt.Sprintf("by-%s-%d", victim, k)] = true
 				}
 			}
+		}
+	}
+	if p.CommErrors && rng.Intn(2) == 0 {
+		pct := 3 + rng.Intn(12)
+		for _, id := range w.Order {
+			w.Nodes[id].Comm.FailSend = func() bool { return rng.Intn(100) < pct }
+		}
+	}
+	if p.CommitteeErrors && rng.Intn(25) == 0 {
+		n := w.Nodes[w.Order[rng.Intn(len(w.Order))]]
+		left := 1
+		n.Mem.OnRequest = func(ctx context.Context, h uint64) error {
+			if h >= 2 && left > 0 {
+				left--
+				w.Mon.Stats["committee request failed once"]++
+				return fmt.Errorf("committee contract temporarily unavailable")
+			}
+			return nil
 		}
 	}
 	if p.LenientValidators && rng.Intn(3) == 0 {
